@@ -65,6 +65,13 @@ type mutant struct {
 	New    string `json:"new"`
 	Expect string `json:"expect"`
 	Count  int    `json:"count"`
+	// Edits: a variant made of several substitutions (e.g. a check moved into a new helper)
+	Edits []struct {
+		File  string `json:"file"`
+		Old   string `json:"old"`
+		New   string `json:"new"`
+		Count int    `json:"count"`
+	} `json:"edits"`
 }
 
 type childResult struct {
@@ -157,17 +164,44 @@ func thorough(id, root, outDir, known string) int {
 	ovDir, _ := os.MkdirTemp("", "verifcheck-ov-"+id+"-")
 	defer os.RemoveAll(ovDir)
 	for i, m := range muts {
-		path := filepath.Join(root, m.File)
-		src, err := os.ReadFile(path)
-		want := m.Count
-		if want == 0 {
-			want = 1
+		type edit struct {
+			file, old, new string
+			count          int
 		}
-		if err != nil || strings.Count(string(src), m.Old) != want {
+		edits := []edit{{m.File, m.Old, m.New, m.Count}}
+		if len(m.Edits) > 0 {
+			edits = nil
+			for _, e := range m.Edits {
+				edits = append(edits, edit{e.File, e.Old, e.New, e.Count})
+			}
+		}
+		ov := map[string]string{}
+		applicable := true
+		for _, e := range edits {
+			path := filepath.Join(root, e.file)
+			cur, seen := ov[path]
+			if !seen {
+				src, err := os.ReadFile(path)
+				if err != nil {
+					applicable = false
+					break
+				}
+				cur = string(src)
+			}
+			want := e.count
+			if want == 0 {
+				want = 1
+			}
+			if strings.Count(cur, e.old) != want {
+				applicable = false
+				break
+			}
+			ov[path] = strings.Replace(cur, e.old, e.new, -1)
+		}
+		if !applicable {
 			skipped = append(skipped, m.Name)
 			continue
 		}
-		ov := map[string]string{path: strings.Replace(string(src), m.Old, m.New, -1)}
 		b, _ := json.Marshal(ov)
 		of := filepath.Join(ovDir, fmt.Sprintf("%d.json", i))
 		os.WriteFile(of, b, 0o644)
